@@ -13,10 +13,18 @@ def escape_quotes_and_backslashes(s):
     return s.replace(u'\\', u'\\\\').replace(u"'", u"\\'")
 
 
+_UNQUOTED_KEY_RE = re.compile(r"^[a-zA-Z_][a-zA-Z0-9_]*\Z")
+_PATTERN_KEYWORDS = frozenset([
+    "AND", "OR", "NOT", "FOLLOWEDBY", "LIKE", "MATCHES", "ISSUPERSET", "ISSUBSET", "EXISTS", "LAST", "IN",
+    "START", "STOP", "SECONDS", "true", "false", "WITHIN", "REPEATS", "TIMES",
+])
+
+
 def quote_if_needed(x):
+    # a path step is written unquoted only if it is an identifier of the pattern grammar
     if isinstance(x, str):
-        if x.find("-") != -1:
-            if not x.startswith("'"):
+        if not x.startswith("'"):
+            if not _UNQUOTED_KEY_RE.match(x) or x in _PATTERN_KEYWORDS:
                 return "'" + x + "'"
     return x
 
